@@ -33,6 +33,7 @@ def run(chk):
     rule_out(chk)
     rule_trampoline_when(chk)
     rule_operand_repeated(chk)
+    rule_global_threading(chk)
 
 
 def rule_sibling_ops(chk):
@@ -532,6 +533,83 @@ def rule_trampoline_when(chk):
            "%d of %d cases differ, e.g. parameters %s called=%s only_declare=%s: emits (only_declare, trampoline_target, out_trampoline) = %s, must be %s: "
            "an out/inout parameter %s" % ((len(bad), n) + bad[0] + ("binds directly to the argument (aliasing instead of copy-in/copy-out)" if len(str(bad[0][3])) < len(str(bad[0][4])) else "is handled differently",)),
            where(fn), sample={"cases": n, "wrong": len(bad)})
+
+
+def rule_global_threading(chk):
+    """How the Metal exporter threads a global through the call graph, read as a table: analyse_globals is walked on
+    one-global modules (storage class x {float, const float, texture, texture array, struct}). Metal has no mutable
+    globals, so a static or groupshared global lives in the entry point and every function that needs it must receive it
+    BY REFERENCE in its address space (thread / threadgroup) - a by-value copy loses every write made in a callee. Only a
+    static const becomes a constant, and only an extern resource handle may be passed by value."""
+    import interp as I
+    f = chk.facts
+    fn = f.fn("analyse_globals", "rssl_msl")
+    if not fn:
+        return
+    ok = lambda v: I.Enum("Result", "Ok", {"0": v})
+    opt = lambda v: I.Enum("Option", "None") if v is None else I.Enum("Option", "Some", {"0": v})
+    loc = lambda v: I.Enum("Located", None, {"node": v, "location": I.Opaque("location")})
+    tid = lambda n: I.Enum("TypeId", None, {"0": n})
+
+    def deref(v):
+        return v.get() if isinstance(v, I.Ref) else v
+    LAYER = {3: I.Enum("TypeLayer", "Scalar", {"0": I.Enum("ScalarType", "Float32")}), 40: I.Enum("TypeLayer", "Object", {"0": I.Enum("ObjectType", "Texture2D", {"0": tid(3)})}),
+             41: I.Enum("TypeLayer", "Object", {"0": I.Enum("ObjectType", "ByteAddressBuffer")}), 50: I.Enum("TypeLayer", "Array", {"0": tid(40), "1": opt(4)}),
+             60: I.Enum("TypeLayer", "Struct", {"0": I.Enum("StructId", None, {"0": 0})})}
+    TYPES = {3: "float", 1003: "const float", 40: "Texture2D", 41: "ByteAddressBuffer", 50: "Texture2D[4]", 60: "struct"}
+    SPACE = {"Extern": "Constant", "Static": "Thread", "GroupShared": "ThreadGroup"}
+
+    def has_ref(d):
+        return isinstance(d, I.Enum) and (d.variant == "Reference" or any(has_ref(x) for x in d.fields.values()))
+    bad = {}
+    n = 0
+    for st in (f.variants("GlobalStorage", "rssl_ir") or []):
+        for ty, tname in TYPES.items():
+            g = I.Enum("GlobalVariable", None, {"name": loc("g"), "type_id": tid(ty), "storage_class": I.Enum("GlobalStorage", st), "is_intrinsic": False, "static_sampler": opt(None), "init": opt(None)})
+            modes = I.HMap()
+            ext = {"GlobalUsageAnalysis::calculate": lambda a: I.Opaque("usage"), "TypeRegistry::is_const": lambda a: deref(a[1]).fields["0"] >= 1000,
+                   "TypeRegistry::remove_modifier": lambda a: tid(deref(a[1]).fields["0"] % 1000), "TypeRegistry::get_type_layer": lambda a: LAYER[deref(a[1]).fields["0"]],
+                   "::get_global_name": lambda a: ok("g"), "generate_initializer": lambda a: ok(opt(None)), "FunctionRegistry::iter": lambda a: [],
+                   "generate_type_and_declarator": lambda a: ok((I.Enum("Type", None, {"layout": I.Opaque("layout"), "modifiers": I.Enum("TypeModifierSet", None, {"modifiers": []}), "location": I.Opaque("location")}),
+                                                                 I.Enum("Declarator", "Identifier", {"0": "g", "1": []})))}
+            ctx = I.Enum("GenerateContext", None, {"module": I.Enum("Module", None, {"global_registry": [g], "type_registry": I.Opaque("type registry"), "function_registry": I.Opaque("function registry")}),
+                                                   "global_variable_modes": modes, "function_required_globals": I.HMap()})
+            what = "a %s global of type %s" % (st.lower(), tname)
+            try:
+                I.Interp(f, max_depth=8, extern=ext).apply(fn, [ctx])
+            except I.Unknown as e:
+                if "panicking" in str(e):
+                    bad.setdefault(st, "analyse_globals aborts on %s (%s)" % (what, str(e)[:60]))
+                    continue
+                chk.unreadable("C02.globals/readable", "analyse_globals on the one-global model", str(e)[:100], where(fn))
+                return
+            n += 1
+            ms = list(modes.items())
+            if len(ms) != 1 or not isinstance(ms[0][1], I.Enum):
+                bad.setdefault(st, "%s gets %d threading modes" % (what, len(ms)))
+                continue
+            mode = ms[0][1]
+            const = ty >= 1000
+            if mode.variant == "Constant":
+                if not (st == "Static" and const):
+                    bad.setdefault(st, "%s is emitted as a global constant: its value can change (or comes from the host), a constant freezes it" % what)
+                continue
+            p = mode.fields["param"].fields
+            by_ref = has_ref(p["declarator"])
+            spaces = [m_.fields["node"].fields["0"].variant for m_ in p["param_type"].fields["modifiers"].fields["modifiers"]
+                      if isinstance(m_.fields.get("node"), I.Enum) and m_.fields["node"].variant == "AddressSpace"]
+            if st == "Static" and const:
+                continue
+            if st != "Extern" and not by_ref:
+                bad.setdefault(st, "%s is handed to the functions that use it BY VALUE: Metal has no mutable globals, the variable lives in the entry point, and a write made in one function "
+                               "is lost when it returns" % what)
+            elif by_ref and spaces != [SPACE[st]]:
+                bad.setdefault(st, "%s is passed by reference in address space %s, it lives in %s" % (what, spaces, SPACE[st]))
+            elif st == "Extern" and not by_ref and LAYER[ty % 1000].variant != "Object":
+                bad.setdefault(st, "%s (not a resource handle) is passed by value" % what)
+    for st in (f.variants("GlobalStorage", "rssl_ir") or []):
+        chk.ob("C02.globals/" + st, st not in bad, bad.get(st) or "threaded by reference in its address space (extern resource handles by value, static const as constants)", where(fn), sample={"storage": st})
+    chk.floor("C02.floor/global-threading-cases", n, 15, "one-global modules evaluated", where(fn))
 
 
 def rule_operand_repeated(chk):
